@@ -32,6 +32,7 @@ func runC07(c *Ctx) {
 	c07Writers(c, m)
 	identityRule(c, m, "C07.identity")
 	c07Accumulate(c, m)
+	c07NonEmptyFlag(c, m)
 	c07WeekKey(c, m)
 	c07CacheScope(c, m)
 }
@@ -406,4 +407,81 @@ func c07CacheScope(c *Ctx, m *Module) {
 		r.Check("C07.fresh-parse", "caller of newUploader: "+fname(cs.Parent()), m.Pos(cs.Pos()), fname(cs.Parent()) == "internal/upload.Run", "one uploader per Run")
 	}
 	_ = n
+}
+
+// c07NonEmptyFlag: the flag deciding "none of the files contained counters" must be a
+// monotone accumulation over ALL files of the week: initially false, only ever set to true.
+func c07NonEmptyFlag(c *Ctx, m *Module) {
+	r := c.R
+	cr := m.Func("internal/upload", "uploader.createReport")
+	var fold *loopInfo
+	for _, l := range naturalLoops(cr) {
+		for _, cs := range callsIn(cr, "(*internal/upload.uploader).parseCountFile") {
+			if l.blocks[cs.Block()] && (fold == nil || len(l.blocks) > len(fold.blocks)) {
+				fold = l
+			}
+		}
+	}
+	if fold == nil {
+		r.Check("C07.accumulate", "createReport/fold loop", m.Pos(cr.Pos()), false, "no loop over the week's files")
+		return
+	}
+	n := 0
+	for _, in := range fold.header.Instrs {
+		phi, ok := in.(*ssa.Phi)
+		if !ok || !isBoolType(phi.Type()) {
+			continue
+		}
+		// is this flag the guard of a rejecting return after the loop?
+		guards := false
+		for _, succ := range append(branchSucc(phi, false), branchSucc(phi, true)...) {
+			if _, rej := rejectBlock(succ); rej && !fold.blocks[succ] {
+				guards = true
+			}
+		}
+		if !guards {
+			continue
+		}
+		n++
+		var check func(v ssa.Value, seen map[ssa.Value]bool) string
+		check = func(v ssa.Value, seen map[ssa.Value]bool) string {
+			v = strip(v)
+			if seen[v] {
+				return ""
+			}
+			seen[v] = true
+			if k, isC := constOf(v); isC {
+				if k == "true" || k == "false" {
+					return ""
+				}
+			}
+			if p2, ok := v.(*ssa.Phi); ok {
+				for i, e := range p2.Edges {
+					if k, isC := constOf(e); isC && k == "false" && fold.blocks[p2.Block().Preds[i]] && p2 == phi {
+						return "reset to false inside the loop"
+					}
+					if s := check(e, seen); s != "" {
+						return s
+					}
+				}
+				return ""
+			}
+			return "assigned a computed value " + shortDesc(describe(v)) + " (not an accumulation: a later empty file would erase an earlier non-empty one)"
+		}
+		bad := ""
+		for i, e := range phi.Edges {
+			if !fold.blocks[fold.header.Preds[i]] {
+				if k, isC := constOf(e); !isC || k != "false" {
+					bad = "does not start false"
+				}
+				continue
+			}
+			if s := check(e, map[ssa.Value]bool{phi: true}); s != "" {
+				bad = s
+			}
+		}
+		r.Check("C07.accumulate", "createReport/'some file had counters' is accumulated over all files", m.Pos(phi.Pos()), bad == "",
+			"the flag that decides whether the week gets a report must be false initially and only ever set to true inside the loop: "+bad)
+	}
+	r.Check("C07.accumulate", "createReport/has the non-empty flag", m.Pos(cr.Pos()), n == 1, fmt.Sprintf("%d flags guard a rejecting return after the fold loop", n))
 }
